@@ -3,7 +3,9 @@
 #include <GeographicLib/MGRS.hpp>
 #include <GeographicLib/UTMUPS.hpp>
 #include <GeographicLib/Math.hpp>
+#include "C04_doc.hpp"
 using namespace GeographicLib; using namespace gv;
+#define bad doc::bad_
 
 static std::string b(bool x) { return x ? "1" : "0"; }
 static const double SENT = 7.25e77;
@@ -26,6 +28,8 @@ static bool split(const std::string& s, std::string& head, std::string& e, std::
   size_t q = p; while (q < s.size() && std::isalpha((unsigned char)s[q])) ++q;
   head = s.substr(0, q); size_t nd = s.size() - q; if (nd % 2) return false; e = s.substr(q, nd / 2); n = s.substr(q + nd / 2); return true;
 }
+
+#include "C05_glue.hpp"
 
 static void fwd_properties(int zone, bool northp, double x, double y, int prec, const std::string& s) {
   // (a) accepted back; same zone / hemisphere (after folding) / precision; centre of the same square; re-encode
@@ -90,11 +94,22 @@ static Reg r_fwd("mgrs_fwd", [](const Args& a) {
   // (northing shifted by the false northing 10^7 m, the addition the implementation itself performs) converts identically
   if (zone >= 1 && zone <= 60 && std::isfinite(x) && std::isfinite(y) && ((northp && y < 0) || (!northp && y > 1e7))) {   // a southern y of exactly 10^7 m keeps its label (documented: on the equator retain S)
     double y2 = northp ? y + 1e7 : y - 1e7;
-    if (northp ? (y2 < 1e7) : (y2 >= 0)) {
+    // (since fix d94b3ac also when y + 10^7 rounds to 10^7; not when y / 10^5 underflows to zero: then the point is taken to be on the equator, band N)
+    if (northp ? std::floor(y / 1e5) != 0 : (y2 >= 0)) {
       std::string s2 = "~untouched~"; std::string e2 = guarded([&] { MGRS::Forward(zone, !northp, x, y2, prec, s2); });
       if (e.empty() != e2.empty() || (e.empty() && s != s2))
         bad("equivalent-labelling", std::string("MGRS::Forward with hemisphere label ") + (northp ? "N" : "S") + " gives " + (e.empty() ? s : "an exception") + " but the same point labelled " + (northp ? "S" : "N") + " gives " + (e2.empty() ? s2 : "an exception"));
     }
+  }
+  // MGRS.hpp: the documented ranges (UTM eastings [100, 900] km, northings [-9000, 9500] km "north" / [1000, 19500] km "south"; UPS [1300, 2700] km north,
+  // [800, 3200] km south), zones 0..60 and precisions -1..11 are exactly what is accepted
+  if (zone != -4 && std::isfinite(x) && std::isfinite(y)) {
+    bool legal = zone >= 0 && zone <= 60 && prec >= -1 && prec <= 11;
+    doc::Rect R = doc::range(zone != 0, northp, true);
+    // a "northern" northing so close below 0 that adding 10^7 m gives exactly 10^7
+    std::string cls = (zone > 0 && northp && y < 0 && y + doc::SHIFT == doc::SHIFT) ? " [class:tiny-negative-northing]" : "";
+    if (legal && doc::strictly_inside(R, x, y) && !e.empty()) bad("documented-range", "MGRS::Forward throws for coordinates strictly inside the documented range" + cls);
+    if ((!legal || doc::strictly_outside(R, x, y)) && e.empty()) bad("documented-range", "MGRS::Forward accepts a zone / precision / coordinates outside the documented range");
   }
   if (!e.empty()) { emit(e); if (e != "!E") bad("foreign-exception", e); if (s != "~untouched~") bad("output-modified-on-throw", "MGRS::Forward"); 
     // no exception for coordinates strictly inside the documented ranges
@@ -102,7 +117,15 @@ static Reg r_fwd("mgrs_fwd", [](const Args& a) {
       double la, lo; if (guarded([&] { UTMUPS::Reverse(zone, northp, x, y, la, lo, true); }).empty()) bad("forward-throws-inside-range", "MGRS::Forward threw for coordinates inside the MGRS ranges"); }
     return; }
   emit(hs(s));
-  if (s == "INVALID") return;
+  if (s == "INVALID") { if (!(zone == -4 || std::isnan(x) || std::isnan(y))) bad("documented-invalid", "MGRS::Forward returns INVALID for a valid coordinate"); return; }
+  if (zone == -4 || std::isnan(x) || std::isnan(y)) bad("documented-invalid", "MGRS::Forward of an invalid zone / NaN coordinate is not INVALID");
+  {
+    // zone digits, band / column / row letters by the arithmetic of the MGRS lettering scheme and digits by truncation (no table of the library)
+    std::string why = mg::check_string(zone, northp, x, y, ek.empty() && zone > 0 && std::fabs(x - 5e5) <= 4e5 ? lat : NAN, prec, s);
+    if (!why.empty()) bad("documented-lettering", "MGRS::Forward(" + std::to_string(zone) + ", " + b(northp) + ", x, y, " + std::to_string(prec) + ") = " + s + ": " + why);
+    // prec = -1: "only the grid zone is returned", the beginning of every longer string
+    std::string s0; if (prec >= 0 && guarded([&] { MGRS::Forward(zone, northp, x, y, -1, s0); }).empty() && s.compare(0, s0.size(), s0) != 0) bad("precision-semantics", "the grid zone " + s0 + " is not the beginning of " + s);
+  }
   fwd_properties(zone, northp, x, y, prec, s);
 });
 static Reg r_fwdlat("mgrs_fwdlat", [](const Args& a) {
@@ -118,6 +141,20 @@ static Reg r_rev("mgrs_rev", [](const Args& a) {
   std::string e = guarded([&] { MGRS::Reverse(s, zone, northp, x, y, prec, cp); });
   if (!e.empty()) { emit(e); if (e != "!E") bad("foreign-exception", e); if (zone != -77 || prec != -77 || x != SENT || y != SENT) bad("output-modified-on-throw", "MGRS::Reverse"); return; }
   emit(std::to_string(zone) + " " + b(northp) + " " + hx(x) + " " + hx(y) + " " + std::to_string(prec));
+  if (s.size() >= 3 && std::toupper((unsigned char)s[0]) == 'I' && std::toupper((unsigned char)s[1]) == 'N' && std::toupper((unsigned char)s[2]) == 'V') {
+    if (!(zone == -4 && std::isnan(x) && std::isnan(y) && prec == -2)) bad("documented-invalid", "MGRS::Reverse of INV... is not (INVALID, NaN, NaN, -2)");
+  } else if (zone == -4 || prec == -2) bad("documented-invalid", "MGRS::Reverse returns INVALID for " + hs(s));
+  if (prec >= 0) {
+    // the south-west corner of the decoded square carries the letters of the string (lettering arithmetic of the standard, no table of the library)
+    int z2, p2; bool n2; double xs, ys;
+    if (guarded([&] { MGRS::Reverse(s, z2, n2, xs, ys, p2, false); }).empty()) {
+      std::string up = s; for (auto& c : up) c = char(std::toupper((unsigned char)c));
+      if (zone > 0 && !std::isdigit((unsigned char)up[1])) up = "0" + up;
+      // the band letter is the string's own (any band the block touches is accepted): compare everything else
+      std::string why = mg::check_string(zone, n2, xs, ys, NAN, p2, up);
+      if (!why.empty()) bad("documented-lettering", "MGRS::Reverse(" + hs(s) + ") = (" + std::to_string(zone) + ", " + b(n2) + ", " + std::to_string(xs) + ", " + std::to_string(ys) + "): " + why);
+    }
+  }
   if (prec == -1) {
     // grid-zone-only string: the returned point lies inside that grid zone
     double lat, lon; std::string e2 = guarded([&] { UTMUPS::Reverse(zone, northp, x, y, lat, lon, true); });
@@ -184,7 +221,7 @@ void gv::generate(const std::string& tier, uint64_t seed) {
       case 0: v = lo + 1e5 * r.irange(0, int((hi - lo) / 1e5)); break;                 // tile edge
       case 1: v = nextdn(lo + 1e5 * r.irange(0, int((hi - lo) / 1e5)), r.irange(1, 2)); break;
       case 2: v = nextup(lo + 1e5 * r.irange(0, int((hi - lo) / 1e5)), r.irange(1, 2)); break;
-      case 3: v = r.pick(std::vector<double>{lo, hi, nextdn(hi), nextup(hi), nextdn(lo), 1e7, 0.0, nextdn(1e7), nextup(1e7), -1e-9}); break;
+      case 3: v = r.pick(std::vector<double>{lo, hi, nextdn(hi), nextup(hi), nextdn(lo), 1e7, 0.0, nextdn(1e7), nextup(1e7), -1e-9, -1e-10, -9.4e-10, -1e-300, -5e-324, -1e-323, 1e-300}); break;
       case 4: { int p = r.irange(0, 11); double sc = std::pow(10.0, 5 - p); v = std::floor(r.range(lo, hi) / sc) * sc; int d = r.irange(-2, 2); v = d > 0 ? nextup(v, d) : nextdn(v, -d); break; } // square edges ±ulp
       default: v = r.range(lo, hi); }
       return v; };
@@ -224,7 +261,55 @@ void gv::generate(const std::string& tier, uint64_t seed) {
     }
     run("mgrs_rev", {hs(t), b(r.coin())});
     stratum(std::string("dec-") + (m < 2 ? "valid" : m < 8 ? "mutated" : m < 10 ? "random" : "special"));
+    // the public splitter on the same text, and on texts of the documented shape with arbitrary letters / lower case / I and O
+    if (i % 2 == 0) run("mgrs_decode", {hs(t)});
+    else {
+      static const char letters[] = "ABCDEFGHJKLMNPQRSTUVWXYZabcdefghjklmnpqrstuvwxyzIOio"; std::string u;
+      int nd = r.irange(0, 3); for (int j = 0; j < nd; ++j) u += char('0' + r.irange(0, 9));
+      int nl = r.pick(std::vector<int>{1, 3, 3, 3, 2, 4, 0}); for (int j = 0; j < nl; ++j) u += letters[r.irange(0, r.irange(0, 9) ? 47 : 51)];
+      int ng = r.pick(std::vector<int>{0, 0, 2, 4, 10, 22, 24, 1, 3}); for (int j = 0; j < ng; ++j) u += char('0' + r.irange(0, 9));
+      int mm = r.irange(0, 9);
+      if (mm == 0 && !u.empty()) u[r.irange(0, int(u.size()) - 1)] = r.pick(std::vector<char>{' ', '\0', '-', '.', char(0xe9), 'I', 'O'});
+      if (mm == 1) u = r.pick(std::vector<std::string>{"INV", "inv", "INVALID", "Invx1", "IN", "38SMB4488", "38smb4488", "A", "ZAH", "38S", "1C", "001C", "38SMB448", "38SM", "38SMB 4488"});
+      run("mgrs_decode", {hs(u)});
+    }
+    // GeoCoords::MGRSRepresentation / AltMGRSRepresentation
+    if (i % 3 == 1) {
+      int k = r.irange(0, 9); bool gk = r.coin();
+      if (gk) {
+        double la = r.irange(0, 3) == 0 ? r.pick(std::vector<double>{0.0, -0.0, 8, -8, 72, 84, -80, 83.999999, 90, -90, 56, 64}) : r.range(-90, 90), lo = r.irange(0, 3) == 0 ? 6.0 * r.irange(-30, 30) : r.range(-180, 180);
+        int z0 = -1; try { z0 = UTMUPS::StandardZone(la, lo); } catch (...) {}
+        int altz = k == 0 ? -3 : k == 1 ? -1 : k == 2 ? -2 : (z0 > 0 ? std::max(1, std::min(60, z0 + r.irange(-1, 1))) : r.irange(0, 60));
+        run("gc_mgrs", {"0", hx(la), hx(lo), std::to_string(r.coin() ? -1 : (z0 > 0 ? std::max(1, std::min(60, z0 + r.irange(-1, 1))) : -1)), hx(0), std::to_string(altz), std::to_string(r.irange(-8, 8))});
+      } else {
+        double yy = y; int e = r.irange(0, 9);
+        if (utmp && e == 0) yy = northp ? 0 : 1e7;
+        int altz = k == 0 ? -3 : k == 1 ? -1 : k == 2 ? -2 : (utmp ? std::max(1, std::min(60, zone + r.irange(-1, 1))) : r.irange(0, 60));
+        run("gc_mgrs", {"1", std::to_string(zone), b(northp), hx(x), hx(yy), std::to_string(altz), std::to_string(r.irange(-8, 8))});
+      }
+      stratum(gk ? "geocoords-mgrs-latlon" : "geocoords-mgrs-utmups");
+    }
+    // GeoConvert -m
+    if (i % 6 == 2) {
+      int nl = r.irange(1, 4); std::string in, first;
+      for (int j = 0; j < nl; ++j) { std::string rec = glue_record(r); if (j == 0) first = rec; in += rec + "\n"; }
+      std::string opt = "-m";
+      switch (r.irange(0, 7)) {
+      case 0: break; case 1: opt += " -s"; break; case 2: opt += " -t"; break; case 3: opt += " -S"; break; case 4: opt += " -T"; break;
+      default: opt += " -z " + glue_zone_request(r, first); }
+      if (r.irange(0, 3)) opt += " -p " + std::to_string(r.irange(-7, 7));
+      if (r.irange(0, 3) == 0) opt += " -n";
+      run("gconv_m", {hs(opt), hs(in)});
+      stratum("geoconvert-m" + std::string(opt.find("-z") != std::string::npos ? "-z" : opt.find("-s") != std::string::npos || opt.find("-S") != std::string::npos ? "-s" : opt.find("-t") != std::string::npos || opt.find("-T") != std::string::npos ? "-t" : ""));
+    }
   }
+  run("mgrs_selftest", {});
+  // coverage: the corners and edges of every standard zone (incl. the Norway / Svalbard zones and the UPS caps), both sides
+  for (int il = -180; il < 180; il += 3) for (double la : {-90.0, -80.0, -79.999999, -72.0, -0.0, 0.0, 8.0, 56.0, 63.999999, 64.0, 71.999999, 72.0, 83.999999, 84.0, 90.0}) {
+    if ((il + 180) % 6 == 3 && !(il == 3 || il == 9 || il == 21 || il == 33)) continue;     // interior meridians only where an exception moves an edge
+    for (double lo : {double(il), nextdn(double(il))}) run("mgrs_cover", {hx(la), hx(lo)});
+  }
+  { Rng rc(seed * 7919 + 55); for (int j = 0; j < 600; ++j) run("mgrs_cover", {hx(rc.range(-90, 90)), hx(rc.range(-180, 180))}); }
   // exhaustive private kernel: all (band, col, row) of UTMRow
   for (int ib = -10; ib < 10; ++ib) for (int c = 0; c < 8; ++c) for (int rr = 0; rr < 20; ++rr) run("utmrow", {std::to_string(ib), std::to_string(c), std::to_string(rr)});
   // block / band geography: a rotating subset of zones in quick, five zones in thorough
